@@ -61,6 +61,9 @@ func RunReplay(t *testing.T, harnesses map[string]func()) {
 				continue
 			}
 			status, detail = "PASS", ""
+			if c.KindName() == "reach" && reached[c.LabelName()] {
+				break // a vacuity witness only has to get to its label once
+			}
 		}
 		var rl []string
 		for l := range reached {
